@@ -313,7 +313,13 @@ def _send_ob(K):
         nofault = z3.And(*[z3.Not(f) for f in faults])
         queries, solver_s = 0, 0.0
         if len(starts) != len(taken):
-            return {"status": "inconclusive", "why": "send loop shape not recognised (slice/send calls do not pair up)"}
+            # the loop does not hand `msg[offset:]` to every send call: fall back to native probes of partial-send patterns (translator validation)
+            for msgb, cn in ((b"ab", [1, 1]), (b"abcd", [2, 2]), (b"abcdef", [1, 2, 3]), (bytes(range(10)), [5, 5]), (bytes(range(9)), [4, 4, 1])):
+                rp = run(replay={"msg": list(msgb), "counts": cn, "fault_at": None})
+                if rp["reproduced"]:
+                    return {"status": "refuted", "cex": {"msg": list(msgb), "counts": cn, "fault_at": None}, "reproduced": True, "queries": 0,
+                            "detail": f"send with partial-send pattern {cn} does not deliver all bytes in order: {rp.get('native')}"}
+            return {"status": "inconclusive", "why": "send loop shape not recognised (slice/send calls do not pair up); native partial-send probes pass"}
         # (0) tiling: under the guard of call i, its slice starts where the previous calls' bytes end, and it is given the whole rest
         tiling_bad = []
         run_sum = z3.IntVal(0)
@@ -328,7 +334,7 @@ def _send_ob(K):
         must_return = z3.And(nofault, allpos, z3.Not(z3.Or(*[g for (g, kind, v) in rets] + [z3.BoolVal(False)])))
         foreign = z3.Or(*[g for (g, kind, v) in results if kind == "raise" and not isinstance(v, CommError)] + [z3.BoolVal(False)])
         zero_not_error = z3.Or(*[z3.And(tg, tk == 0, given > 0, z3.Or(*[g for (g, kind, v) in rets] + [z3.BoolVal(False)])) for (tg, tk, given) in taken] + [z3.BoolVal(False)])
-        for name, cond in (("tiling", z3.Or(*tiling_bad)), ("returns-all-bytes", bad_ret), ("terminates", must_return), ("only-CommError", foreign),
+        for name, cond in (("tiling", z3.And(nofault, z3.Or(*tiling_bad))), ("returns-all-bytes", z3.And(nofault, bad_ret)), ("terminates", must_return), ("only-CommError", foreign),
                            ("zero-bytes-accepted-means-CommError", zero_not_error)):
             s = z3.Solver()
             s.add(env_ok, *I.assumptions, cond)
